@@ -349,6 +349,7 @@ func (i *Interpreter) ProcessRecv() error {
 	switch state {
 	case PASS:
 		i.ctx.State = "MISS"
+		i.process.Cached = false
 		i.Debugger.Message(fmt.Sprintf("Move state: %s -> HASH", i.ctx.Scope))
 		if err = i.ProcessHash(); err != nil {
 			return errors.WithStack(err)
@@ -374,6 +375,7 @@ func (i *Interpreter) ProcessRecv() error {
 			err = i.ProcessHit()
 		} else {
 			i.ctx.State = "MISS"
+			i.process.Cached = false
 			i.Debugger.Message(fmt.Sprintf("Move state: %s -> MISS", i.ctx.Scope))
 			err = i.ProcessMiss()
 		}
